@@ -1,6 +1,7 @@
 //! pvc-bdd: checks C13, C14.  usage: pvc-bdd <Cxx> --tier quick|thorough [--replay f] [--only family]
 
 pub mod c13;
+pub mod c13_bind;
 pub mod c14;
 
 use pvc_engine::{Run, load_replay, parse_args};
